@@ -65,14 +65,15 @@ theorem C08_flags_both_cases (kw : Kw) (k v : Text) (h : (k, v) ∈ kw) :
   constructor <;> exact List.mem_flatMap.mpr ⟨(k, v), h, by simp⟩
 
 /-- what a CLOSED / FAILED line produces, in order: the pending close requests complete, `when_closed`
-waits complete, `when_built` waits fail (if the circuit never was BUILT), and then every listener
-registered at that moment hears `closed` / `failed` once, with the flags in both cases -/
+waits complete, `when_built` waits fail (if the circuit never was BUILT) — and among them, in the order in which they began
+to wait, the connections through this circuit that were waiting for it to be built —, and then every listener registered at that moment hears `closed` / `failed`
+once, with the flags in both cases -/
 theorem C08_terminal_event (s : St) (o cid : Nat) (args : List Text) (quit : List Nat) (ho : o < s.cobj.length)
     (ht : isTerminalC (args.getD 1 []) = true) (hnb : args.getD 1 [] ≠ str "BUILT") :
     (circFinish s o cid args quit).2 =
       (if args.getD 1 [] = str "FAILED" && !(getC s o).streams.isEmpty then [Out.err (str "failed-with-streams")] else []) ++
       (((getC s o).closing.getD []).map fun d => Out.fire d true) ++ ((getC s o).closed.fire true).2 ++
-        ((getC s o).built.fire false).2 ++
+        mergeFires ((getC s o).built.fire false).2 ((s.viaWait.filter (·.1 = o)).map fun w => Out.fire w.2.1 false) ++
         (getC s o).listeners.map (fun l => Out.notify l (if args.getD 1 [] = str "CLOSED" then str "closed" else str "failed") (getC s o).id []
           (createFlags (findKeywords args))) := by
   have hc1 : getC (circClosing s o).1 o = { getC s o with closing := none, closed := ((getC s o).closed.fire true).1 } := by
@@ -85,12 +86,13 @@ theorem C08_terminal_event (s : St) (o cid : Nat) (args : List Text) (quit : Lis
   have hn : ∀ (s3 : St) (k : Text) (f : Kw), (notifyC s3 o quit k [] f).2 = (getC s3 o).listeners.map (fun l => Out.notify l k (getC s3 o).id [] f) :=
     fun _ _ _ => rfl
   rw [hn]
+  have hvw : (circClosing s o).1.viaWait = s.viaWait := rfl
   have hg3 : getC { setC (circClosing s o).1 o { getC (circClosing s o).1 o with built := ((getC (circClosing s o).1 o).built.fire false).1 } with
-      circuits := adel (circClosing s o).1.circuits cid } o =
+      circuits := adel (circClosing s o).1.circuits cid, viaWait := (circClosing s o).1.viaWait.filter (·.1 ≠ o) } o =
       { getC (circClosing s o).1 o with built := ((getC (circClosing s o).1 o).built.fire false).1 } := by
     show getC (setC (circClosing s o).1 o _) o = _
     rw [getC_setC]; simp [hlen1]
-  rw [hg3, hc1]
+  rw [hg3, hc1, hvw]
   simp only [List.append_assoc]
 
 /-! ## waits -/
